@@ -234,27 +234,29 @@ func (w *world) newNode(orphanCap, badCap int) *node {
 	return n
 }
 
-// settle waits until the sign-verifier goroutines are idle (they may still be busy when execution of a block
-// failed before the chain service waited for them); purely an observation of the validator's bookkeeping, see shim.
-func (n *node) settle() {
-	need, pending := chain.VerifC05VerifyState(n.cs)
-	if !need && !n.shifted {
-		return
-	}
-	limit := 40 // x 50us: a node whose tree collects a pending result before the next request never shows pending=1 here
-	if need {
-		// a started verification was not waited for: its collector ends by putting the result into the channel
+// note remembers whether a sign verification was ever started and not waited for on this node (the execution of a
+// block failed before the chain service collected the result): purely an observation of the validator's
+// bookkeeping, see shim.
+func (n *node) note() {
+	if need, _ := chain.VerifC05VerifyState(n.cs); need {
 		n.shifted = true
-		limit = 4000
-	}
-	for i := 0; pending != 1 && i < limit; i++ {
-		time.Sleep(50 * time.Microsecond)
-		_, pending = chain.VerifC05VerifyState(n.cs)
 	}
 }
 
+// close waits until the sign-verifier goroutines are idle before the node is stopped (stopping closes their channels):
+// an un-awaited verification ends by putting its result into the result channel.
 func (n *node) close() {
-	n.settle()
+	need, pending := chain.VerifC05VerifyState(n.cs)
+	if need || n.shifted {
+		limit := 40 // x 50us: on a tree that collects a pending result before the next request nothing is pending here
+		if need {
+			limit = 4000
+		}
+		for i := 0; pending != 1 && i < limit; i++ {
+			time.Sleep(50 * time.Microsecond)
+			_, pending = chain.VerifC05VerifyState(n.cs)
+		}
+	}
 	n.cs.BeforeStop()
 	os.RemoveAll(n.dir)
 }
@@ -265,7 +267,7 @@ func (n *node) add(b *types.Block) (cls string, msgs string) {
 	if err != nil && os.Getenv("VERIF_DEBUG") != "" {
 		fmt.Fprintf(os.Stderr, "add %s/%d: %v\n", tk(b.BlockHash()), b.BlockNo(), err)
 	}
-	n.settle()
+	n.note()
 	var re *chain.ErrReorg
 	switch {
 	case err == nil:
